@@ -19,11 +19,12 @@ import (
 // family is a deterministic stream of grammars: a plain space, optionally
 // followed by one-sugar variants of each member.
 type family struct {
-	Name  string
-	Space *gen.Space
-	Sugar bool  // emit one-sugar variants of each canonical member instead of the member itself
-	Limit int64 // stop after this many raw indices (0 = whole space); reported as a cap
-	Names int   // gen.Grammar.RenameRules scheme
+	Name   string
+	Space  *gen.Space
+	Sugar  bool  // emit one-sugar variants of each canonical member instead of the member itself
+	Sugar2 bool  // emit the two-sugar variants (gen.SugarPairs) instead
+	Limit  int64 // stop after this many raw indices (0 = whole space); reported as a cap
+	Names  int   // gen.Grammar.RenameRules scheme
 	// Indirect: emit gen.Grammar.IndirectEmpty of each member (members without @empty are skipped)
 	Indirect bool
 	// Wide: instead of Space, N grammars built from K components each (gen.Wide)
@@ -121,6 +122,12 @@ func (fam *family) each(c *mc.Ctx, f func(idx int64, g *gen.Grammar)) {
 			}
 		}
 		g.RenameRules(fam.Names)
+		if fam.Sugar2 {
+			for k, v := range gen.SugarPairs(g) {
+				f(i*1000+int64(k)+1, v)
+			}
+			continue
+		}
 		if !fam.Sugar {
 			f(i*1000, g)
 			continue
@@ -224,6 +231,7 @@ func c01Families(quick bool) c01Params {
 				{Name: "plain", Space: gen.NewSpace(2, 2, 2, 2, false)},
 				{Name: "plain3", Space: gen.NewSpace(3, 2, 2, 2, false), Limit: 400000},
 				{Name: "sugar", Space: gen.NewSpace(2, 2, 2, 2, false), Sugar: true, Limit: 6000},
+				{Name: "sugar2", Space: gen.NewSpace(2, 2, 2, 2, false), Sugar2: true, Limit: 2500, L: 5, Lpos: 7, Npos: 60},
 				{Name: "plain-names", Space: gen.NewSpace(2, 2, 2, 2, false), Names: 1},
 				{Name: "plain3-names", Space: gen.NewSpace(3, 2, 2, 2, false), Limit: 150000, Names: 1},
 				{Name: "plain-indirect", Space: gen.NewSpace(2, 2, 2, 2, false), Indirect: true},
@@ -242,6 +250,8 @@ func c01Families(quick bool) c01Params {
 			{Name: "plain3", Space: gen.NewSpace(3, 2, 2, 2, false), Limit: 3000000},
 			{Name: "plain-t3", Space: gen.NewSpace(2, 3, 2, 2, false)},
 			{Name: "sugar", Space: gen.NewSpace(2, 2, 2, 2, false), Sugar: true},
+			{Name: "sugar2", Space: gen.NewSpace(2, 2, 2, 2, false), Sugar2: true, Limit: 20000, L: 6, Lpos: 9, Npos: 200},
+			{Name: "sugar2-t3", Space: gen.NewSpace(2, 3, 2, 2, false), Sugar2: true, Limit: 20000, L: 5, Lpos: 8, Npos: 100},
 			{Name: "plain-names", Space: gen.NewSpace(2, 2, 2, 2, false), Names: 1},
 			{Name: "plain-t3-names", Space: gen.NewSpace(2, 3, 2, 2, false), Names: 1},
 			{Name: "plain-indirect", Space: gen.NewSpace(2, 2, 2, 2, false), Indirect: true},
@@ -293,6 +303,8 @@ func c01Explore(b *px.Built, r *px.Runner, famName string, idx int64, L, Lpos, N
 	}
 	if len(innerSent) == 0 {
 		innerSent = nil
+	} else if o := r.Run(innerSent); !o.OK || ranErrorProd(b, o.Events) || derivationProblem(b, o.Events, innerSent) != "" {
+		innerSent = nil // it does not parse alone: reported below, not as interference
 	}
 	check := func(w []int) {
 		o := r.Run(w)
